@@ -16,6 +16,7 @@ mod streams;
 mod timeouts;
 mod tls;
 mod tower;
+mod views;
 mod wire;
 
 use out::{Run, Tier};
@@ -65,6 +66,7 @@ fn main() -> anyhow::Result<()> {
         "C19" => tower::run_c19(&mut run)?,
         "C20" => tower::run_c20(&mut run)?,
         "C13" => dialing::run_c13(&mut run)?,
+        "C09" => views::run_c09(&mut run)?,
         "C01" => tls::run_c01(&mut run)?,
         "C03" => tls::run_c03(&mut run)?,
         "C14" => tls::run_c14(&mut run)?,
